@@ -202,6 +202,12 @@ func (fc *funcContext) translateExpr(expr ast.Expr) *expression {
 
 	case *ast.FuncLit:
 		fun := fc.literalFuncContext(e).translateFunctionBody(e.Type, nil, e.Body)
+		if fc.pos.IsValid() {
+			// The literal's body ends its own source map range. Whatever the
+			// enclosing statement emits after the literal (for example further call
+			// arguments) belongs to that statement again.
+			fun += fc.posHint(fc.pos)
+		}
 		if len(fc.pkgCtx.escapingVars) != 0 {
 			names := make([]string, 0, len(fc.pkgCtx.escapingVars))
 			for obj := range fc.pkgCtx.escapingVars {
